@@ -345,6 +345,14 @@ theorem witness_legacy_url_form :
     exclLegacyURLForm .legacy dForm rFormRel = false ∧
     gorillaFind dForm rFormAbs = .route (s "/a") get [] := by decide +kernel
 
+open W in
+/-- new finding: the legacy router commits to the first matching server; gorillamux and the spec route the request -/
+theorem witness_legacy_first_server :
+    legacyFind dFirst rFirst = .notFound ∧
+    gorillaFind dFirst rFirst = .route (s "/b") (s "PUT") [(s "ver", s "v2")] ∧
+    specOutcome true dFirst rFirst = (.route, [⟨s "/b", [], true⟩]) ∧
+    exclLegacyFirstServer .legacy dFirst rFirst = true := by decide +kernel
+
 /-! ## non-vacuity: the hypotheses of the theorems are satisfiable on a non-trivial document -/
 
 open W in
